@@ -652,6 +652,31 @@ def _snapshots_first(ctx, app):
             continue
         ctx.require(db and live, 'snapshot read and live watch of %s.run'
                     % cname, rule='C18.5', func=run)
+        # the snapshots are consulted whenever the object may have been
+        # archived: the only reason to skip them is that the instance is
+        # still scheduled (nothing of a scheduled instance is ever archived).
+        # Any other condition - "its exit summary exists" - fails once that
+        # record was archived as well.
+        nzr = N.Normaliser()
+        facts = N.must_facts(graph, nzr)
+        for node in db:
+            extra = []
+            for fact in N.raw_only(facts[node]):
+                txt = N.show(fact)
+                resolved = K.rtxt(run, ast.parse(
+                    fact.key[1], mode='eval').body) if fact.key[0] in (
+                        'truth',) else txt
+                if fact.key[0] == 'truth' and not fact.key[2] and \
+                        '.exists(' in resolved and \
+                        'path.scheduled(' in resolved:
+                    continue
+                extra.append(txt)
+            ctx.ob('C18.5', run, node, not extra,
+                   '%s.run skips the snapshots only while the instance is '
+                   'scheduled%s' % (cname, '' if not extra else
+                                    ' - also required: %s' % extra),
+                   construct='%s snapshots consulted unless scheduled' %
+                   cname)
         late = [d for d in db if any(
             d in C.reach_after(w, edge_ok=C.no_exc) for w in live)]
         ctx.ob('C18.5', run, late[0] if late else db[0], not late,
